@@ -451,6 +451,22 @@ def run(tier="quick", seed=0, pid=None):
     got = JC.dump(Wire(), config=cfg2)
     if got.get("z") != 1:
         fail("C20", "configured_names", {"serialize_method": "to_wire"}, "dump gave %r" % (got,))
+    # the same through a copy of the configuration (what the dispatcher dumps with when it answers a 1.0 request as a 2.0
+    # server) and through a copy to which a handler was added: names and handlers travel with the copy
+    cfg3 = cfg2.copy()
+    cfg3.serialize_handlers[complex] = lambda obj, *a, **k: {"re": obj.real}
+    for cfg_ in (cfg2.copy(), cfg3):
+        n += 2
+        got = JC.dump([Renamed()], config=cfg_)[0]
+        if "b" in got or got.get("a") != 1:
+            fail("C20", "configured_names", {"ignore_attribute": "skip_these", "config": "a copy()"}, "dump gave %r" % (got,))
+        got = JC.dump({"k": Wire()}, config=cfg_)["k"]
+        if got.get("z") != 1:
+            fail("C20", "configured_names", {"serialize_method": "to_wire", "config": "a copy()"}, "dump gave %r" % (got,))
+    n += 1
+    got = JC.dump([1j], config=cfg3)
+    if got != [{"re": 0.0}]:
+        fail("C20", "handler_at_every_depth", {"value": "[1j] with a handler added to a copy()"}, "dump gave %r" % (got,))
     n += 1
     weird = m.Holder()
     weird.items = object()
